@@ -180,6 +180,8 @@ func extractFSM(c *Ctx, m fsmSpec, events []string) ([]transition, map[string]st
 								default:
 									if _, isP := st.Val.(*ssa.Parameter); isP {
 										id = "param"
+									} else if helperReturnsOwnID(st.Val) {
+										id = "own" // identifier handed out by a helper that reads/advances the automaton's own counter
 									} else {
 										id = "other"
 									}
@@ -260,6 +262,7 @@ var c11Events = []string{"Up", "Down", "Open", "Close", "timeout", "receiveConfi
 func C11(c *Ctx) {
 	r := c.R
 	defer c11ParserConsumesAll(c)
+	defer c11MatchIdOwner(c)
 	r.Explain = "The transition relation of the LCP, IPCP and IPv6CP automata is extracted from /repo's source by a finite-domain disjunctive dataflow analysis (configurations = automaton state × guard atoms (identifier match, restart counter) × actions performed, same-receiver calls summarised) for every (event handler, pre-state) pair, and checked against the safety invariants C11 states: who may enter/leave Opened, freshness of both acknowledgements, stale identifiers ignored, reply identifiers/codes, restart-counter discipline; plus option-list provenance in processConfigureOptions and the ReceivePacket dispatch table.  Complete over the extracted relation; timer/packet races and option byte contents are not decided."
 	r.Rule("C11.I0.dispatch", "ReceivePacket dispatches each LCP code to its handler (Configure-Request/Ack/Nak/Reject, Terminate-Request/Ack)", 18)
 	r.Rule("C11.I1.enterOpened", "Opened is entered only by RCR+ in Ack-Rcvd (a Configure-Ack echoing the request was sent) or RCA with matching identifier in Ack-Sent", 6)
@@ -837,4 +840,31 @@ func c11Siblings(c *Ctx, rels map[string][]transition) {
 			c.R.Check("C11.I7.siblings", "pppoe.(*"+other+")", k, "-", base[k] == o[k], fmt.Sprintf("LCP: %s   %s: %s", base[k], other, o[k]))
 		}
 	}
+}
+
+// helperReturnsOwnID: v is a call of a module function each of whose results derives from the automaton's own
+// identifier counter (field ".identifier") and from nothing of a received packet.
+func helperReturnsOwnID(v ssa.Value) bool {
+	call, ok := v.(*ssa.Call)
+	if !ok {
+		return false
+	}
+	g := call.Call.StaticCallee()
+	if g == nil || !load.InModule(g) || len(g.Blocks) == 0 {
+		return false
+	}
+	found := false
+	for _, b := range g.Blocks {
+		ret, ok := b.Instrs[len(b.Instrs)-1].(*ssa.Return)
+		if !ok || b == g.Recover {
+			continue
+		}
+		for _, rv := range flow.ReturnValues(ret) {
+			if !dependsOnField(rv, ".identifier", map[ssa.Value]bool{}) || dependsOnField(rv, "LCPPacket.Identifier", map[ssa.Value]bool{}) {
+				return false
+			}
+			found = true
+		}
+	}
+	return found
 }
